@@ -387,6 +387,35 @@ class History:
         self.sent.append((t1.txid, t1.raw_hex(), ins, outs))
         self.record('send.%d.%s.%s' % (self.tid(t1.txid), ins, outs), 'ok', 'send() again on the object of the deleted parent %s..' % t1.txid[:8])
 
+    def op_store_unsent(self):
+        # a transaction that was created and stored but not sent (status 'new'): the wallet counts its outputs - balance, unspent list and
+        # per-key balances must still tell the same story - and deleting it again leaves the ledger as it was
+        from bitcoinlib.wallets import WalletError
+        rng = self.rng
+        avail = sum(u['value'] for u in self.w.utxos())
+        try:
+            t = self.w.send_to(EXT[self.wt], max(600, avail // 4), fee=1000, broadcast=False, min_confirms=0)
+            t.store()
+        except WalletError:
+            self.ctx.count('store-unsent:not-possible')
+            return self.op_balance()
+        self.ctx.count('store-unsent')
+        self.ctx.evals += 1
+        bal = int(self.w.balance())
+        ut = sum(u['value'] for u in self.w.utxos())
+        kb = sum(int(k.balance) for k in self.all_keys(self.w))
+        fresh = self.open()
+        fbal, fut = int(fresh.balance()), sum(u['value'] for u in fresh.utxos())
+        if not (bal == ut == kb == fbal == fut):
+            self.reload_problems.append(('store-unsent', t.txid, 'with a stored, unsent transaction the wallet tells different stories',
+                                         {'balance': bal, 'sum_of_utxos': ut, 'sum_of_key_balances': kb, 'fresh_object_balance': fbal, 'fresh_object_utxos': fut}))
+        try:
+            self.w.transaction_delete(t.txid)
+        except WalletError:
+            pass
+        self.sync_keys()
+        self.record('bal', 'ok', 'send_to(broadcast=False) + store(), looked at, then transaction_delete')
+
     def op_sweep(self):
         from bitcoinlib.wallets import WalletError
         rng = self.rng
@@ -505,13 +534,15 @@ class History:
         rng = self.rng
         for _ in range(3):
             self.op_add()
-        table = [(self.op_add, 3), (self.op_send, 5), (self.op_sweep, 1), (self.op_delete, 2), (self.op_reopen, 2), (self.op_newkey, 1), (self.op_balance, 1), (self.op_resend, 2), (self.op_send_held, 2)]
+        table = [(self.op_add, 3), (self.op_send, 5), (self.op_sweep, 1), (self.op_delete, 2), (self.op_reopen, 2), (self.op_newkey, 1), (self.op_balance, 1), (self.op_resend, 2), (self.op_send_held, 2), (self.op_store_unsent, 1)]
         pool = [f for f, wgt in table for _ in range(wgt)]
         for step_ in range(self.nops):
             if step_ == self.nops // 2 and self.hseed % 2 == 0:
                 self.op_replacement()          # (in every second history, once)
             if step_ == self.nops // 3 and self.hseed % 2 == 1:
                 self.op_parent_child()         # (in the other histories, once)
+            if step_ == 2:
+                self.op_store_unsent()         # (in every history, once)
             rng.choice(pool)()
         # a final drain: sweep, then look again
         self.final = True
